@@ -45,6 +45,9 @@ func genGrp(a hx.Args) {
 		parts := 2 + r.Intn(6)
 		brokers := 1 + r.Intn(2)
 		slots := 2 + r.Intn(3)
+		if bal == 4 && r.Chance(40) {
+			parts = 1 + r.Intn(2) // fewer partitions than members: a member loses everything it owns in one reconciliation
+		}
 		blockpoll := r.Intn(2)
 		commitms := hx.Pick(r, []int{100, 300, 1000})
 		restarts := r.Intn(3)
@@ -193,6 +196,12 @@ func runGrp(t *testing.T, tk []string) string {
 		ports[i] = base + i
 	}
 	copts := []kfake.Opt{kfake.NumBrokers(brokers), kfake.Ports(ports...), kfake.SeedTopics(int32(parts), "t"), kfake.ListenFn(net.ListenFn)}
+	if bal == 4 {
+		// KIP-848: the session timeout is the broker's (default 45 s). A member whose leave heartbeat was lost to a
+		// connection fault stays in the group until it expires, so it is set to the classic scenarios' 6 s and the
+		// quiet end below is long enough for that plus a heartbeat interval.
+		copts = append(copts, kfake.BrokerConfigs(map[string]string{"group.consumer.session.timeout.ms": "6000"}))
+	}
 	slowRevoke := false
 	if bal == 4 && seed%2 == 0 {
 		// KIP-848 with a short broker-side heartbeat interval and revoke callbacks that outlast it: the member keeps
@@ -382,7 +391,7 @@ func runGrp(t *testing.T, tk []string) string {
 	// churn is bounded in time: wait until every slot is in its final, forever member, then for stability
 	time.Sleep(time.Duration(restarts+1) * 3500 * time.Millisecond)
 	faultsOn.Store(false) // the quiet end is fault free so that the group can settle
-	time.Sleep(12 * time.Second)
+	time.Sleep(20 * time.Second)
 	var ms []string
 	live.Range(func(k, _ any) bool { ms = append(ms, strconv.FormatInt(k.(int64), 10)); return true })
 	sort.Strings(ms)
